@@ -1,5 +1,8 @@
 pub mod c09;
 pub mod c10;
+pub mod c19;
+pub mod conc;
+pub mod stress;
 pub mod hist_family;
 
 use crate::engine::{Accum, Ctx};
